@@ -204,6 +204,31 @@ fn bump_probes<C: Clone + Serialize>(ctx: &mut WorkerCtx<C>, plan: &Plan, out: &
     for f in &out.faults_fired {
         ctx.counters.bump(&format!("fault_fired.{}", f));
     }
+    // reach of the rare plan kinds
+    let nops: usize = plan.callers.iter().flatten().map(|o| o.ids().len().max(1)).sum();
+    if nops > 100 {
+        ctx.counters.bump("rare.long_history_or_big_burst");
+    }
+    if plan
+        .callers
+        .iter()
+        .flatten()
+        .any(|o| matches!(o, Op::Burst { ops } if ops.len() > 100))
+    {
+        ctx.counters.bump("rare.more_than_128_requests_outstanding");
+    }
+    if plan.replies.values().any(|s| s.delay_ms >= 59_999) {
+        ctx.counters.bump("rare.minutes_long_reply");
+    }
+    if plan.changes.len() > 1000 {
+        ctx.counters.bump("rare.notification_flood");
+    }
+    if plan.replies.values().any(|s| s.binary.unwrap_or(0) >= 65_536) {
+        ctx.counters.bump("rare.payload_64k_or_more");
+    }
+    if plan.binary_limit >= 1_000_000 {
+        ctx.counters.bump("rare.megabyte_chunks_giant_picture");
+    }
     if !plan.faults.is_empty() && out.faults_fired.is_empty() {
         ctx.counters.bump("fault_planned_but_not_reached");
     }
@@ -267,6 +292,10 @@ const SESSION_PROBES: &[&str] = &[
     "reply_crosses_4096",
     "short_write_split_line",
     "change_while_request_in_flight",
+    "rare.long_history_or_big_burst",
+    "rare.more_than_128_requests_outstanding",
+    "rare.minutes_long_reply",
+    "rare.payload_64k_or_more",
 ];
 
 fn fault_free_plan(rng: &mut Rng, w: &Workload, max_events: usize, unknown: bool, max_names: usize) -> Plan {
@@ -1024,6 +1053,7 @@ impl Check for C17 {
             "art.size_not_multiple_of_limit",
             "art.larger_than_receive_buffer",
             "binary_contains_protocol_lines",
+            "rare.megabyte_chunks_giant_picture",
         ]
     }
     fn assumptions(&self) -> Vec<String> {
